@@ -113,6 +113,10 @@ def tempPath (p : Path) (rnd : List Char) : Path :=
 def uploadSteps (p : Path) (rnd : List Char) (d : Bytes) : List FsStep :=
   [.mkdirs (ancestors p), .create (tempPath p rnd), .write (tempPath p rnd) d, .rename (tempPath p rnd) p]
 
+/-- the state after the first `k` file-system steps of an upload -/
+def uploadState (fs : FS) (p : Path) (rnd : List Char) (d : Bytes) (k : Nat) : FS :=
+  ((uploadSteps p rnd d).take k).foldl FS.apply fs
+
 /-- result of a successful upload (all steps applied) -/
 def FS.upload (fs : FS) (p : Path) (d : Bytes) : FS := (fs.mkdirs (ancestors p)).write p d
 
